@@ -53,6 +53,17 @@ class OsuIO(GameIO):
 
         return OsuMap.read_file(path)
 
+    def read_api(self, data, layout=None, raw_newlines=False):
+        from reamber.osu.OsuMap import OsuMap
+
+        text = data.decode("utf8")
+        if not raw_newlines:
+            text = text.replace("\r\n", "\n")
+        return OsuMap.read(text.split("\n"))
+
+    def write_api(self, obj, layout=None) -> bytes:
+        return "\n".join(obj.write()).encode("utf8")
+
     def write(self, obj, path, layout=None):
         return obj.write_file(path)
 
